@@ -781,7 +781,7 @@ def block_1014_check(sample_data):
     if first_1014[-2:] == Block1014.PAD_CHAR * 2:
         if len(sample_data) == 1014:
             return True
-        if len(sample_data) == 2028 and sample_data[-2:] == Block1014.PAD_CHAR * 2:
+        if len(sample_data) >= 2028 and sample_data[2026:2028] == Block1014.PAD_CHAR * 2:
             return True
     return False
 
